@@ -40,7 +40,7 @@ func (tr *Trace) causes() *causeIndex {
 		ci.logsByObj[l.Obj] = append(ci.logsByObj[l.Obj], l)
 	}
 	for _, a := range tr.APIs {
-		if a.Call == "Stop" || a.Call == "StopWithContext" {
+		if a.Call == "Stop" || a.Call == "StopWithContext" || a.Call == "CancelStartContext" {
 			ci.stops[a.Obj] = append(ci.stops[a.Obj], a)
 		}
 	}
